@@ -211,7 +211,7 @@ class Driver:
     """The compiled Lean model behind a line protocol (one JSON op in, one answer out)."""
 
     def __init__(self):
-        self.exe = os.path.join(LEAN, ".lake", "build", "bin", "driver")
+        self.exe = os.environ.get("VERIF_DRIVER_EXE") or os.path.join(LEAN, ".lake", "build", "bin", "driver")
 
     def ensure_built(self):
         rc, out = lake_build(["driver"])
